@@ -384,6 +384,17 @@ func registerBig(e *Engine) {
 		t, _ := intTerm(a[1])
 		return setRat(a[0], t, IntConst64(1))
 	})
+	R("(*math/big.Rat).SetFloat64", func(fr *frame, a []value) value {
+		x, ok := a[1].(float64)
+		if !ok {
+			panic(abortPath{"unsupported", "big.Rat.SetFloat64 of a symbolic float"})
+		}
+		r := new(big.Rat).SetFloat64(x)
+		if r == nil {
+			return (*value)(nil)
+		}
+		return setRat(a[0], IntConst(r.Num()), IntConst(r.Denom()))
+	})
 	R("(*math/big.Rat).Set", func(fr *frame, a []value) value { r := ratOf(a[1]); return setRat(a[0], r.N, r.D) })
 	R("(*math/big.Rat).Add", func(fr *frame, a []value) value {
 		x, y := ratOf(a[1]), ratOf(a[2])
